@@ -102,6 +102,13 @@ def run_case(cfg):
     def bad(prop, kind, msg, **extra):
         viol.append(dict(prop=prop, sig=dict(kind=kind, scen=cfg['scen'], algo=cfg['algo'], safe=cfg['safe'], **extra), msg='%s %s.%s_cache(maxsize=%s, purge=%s, archive=%s): %s' % (
             cfg['scen'], 'safe' if cfg['safe'] else 'klepto', cfg['algo'], cfg['maxsize'], cfg['purge'], cfg.get('arch'), msg)))
+    class _Raised(object): pass
+    def callf(f, *a):
+        """a call of a decorated function; an exception out of it is the property's business (C01), not the harness's"""
+        try: return f(*a)
+        except Exception as e:
+            bad('C01', 'call-raises', 'the call %r raised %s: %s' % (a, type(e).__name__, str(e)[:80]), exc=type(e).__name__)
+            return _Raised
     try:
         os.chdir(tmp); random.seed(cfg['seed'])
         D = decorator(cfg); bounded = cfg['algo'] in ('lru', 'lfu', 'mru', 'rr')
@@ -175,18 +182,18 @@ def run_case(cfg):
             def g(x): evals.append(x); return 'v%d' % x
             f = D(**dkw(cfg, kcache(archive=mk())))(g)
             for x in cfg['calls']:
-                if f(x) != 'v%d' % x: bad('C01', 'chdir-wrong-result', 'g(%d) wrong before the directory change' % x)
+                if callf(f, x) not in ('v%d' % x, _Raised): bad('C01', 'chdir-wrong-result', 'g(%d) wrong before the directory change' % x)
             f.dump()
             if cfg['seed'] % 2:
                 # a later session: a fresh decorator on a fresh handle that finds the store ALREADY THERE under its relative name
                 f = D(**dkw(cfg, kcache(archive=mk())))(g)
                 for x in cfg['calls'][:4]:
-                    if f(x) != 'v%d' % x: bad('C01', 'chdir-wrong-result', 'g(%d) wrong in the later session' % x)
+                    if callf(f, x) not in ('v%d' % x, _Raised): bad('C01', 'chdir-wrong-result', 'g(%d) wrong in the later session' % x)
             pick = dill.dumps(f.__cache__().archive) if cfg['arch'] != 'sql' else None      # (a sqlite3 connection does not pickle)
             os.chdir(os.path.join(tmp, 'elsewhere'))
             n0 = len(evals)
             for x in cfg['calls2']:
-                if f(x) != 'v%d' % x: bad('C01', 'chdir-wrong-result', 'g(%d) wrong after the directory change' % x)
+                if callf(f, x) not in ('v%d' % x, _Raised): bad('C01', 'chdir-wrong-result', 'g(%d) wrong after the directory change' % x)
             f.dump()
             again = sorted(set(x for x in evals[n0:] if x in evals[:n0]))
             if again and cfg['algo'] != 'no' or (cfg['algo'] == 'no' and again):
@@ -223,8 +230,8 @@ def run_case(cfg):
             def g(x): evals.append(x); return 'v%d' % x
             fs = [D(**dkw(cfg, kcache(archive=make_archive(cfg['arch'], tmp, 'shared'))))(g) for _ in range(2)]
             for who, x in cfg['calls']:
-                got = fs[who](x)
-                if got != 'v%d' % x: bad('C01', 'twin-wrong-result', 'instance %d: g(%d) = %r' % (who, x, got))
+                got = callf(fs[who], x)
+                if got not in ('v%d' % x, _Raised): bad('C01', 'twin-wrong-result', 'instance %d: g(%d) = %r' % (who, x, got))
             fresh = dict(make_archive(cfg['arch'], tmp, 'shared').items())
             held = set(fresh) | set(fs[0].__cache__()) | set(fs[1].__cache__())
             lost = sorted(x for x in set(evals) if fs[0].key(x) not in held)
@@ -251,7 +258,12 @@ def run_case(cfg):
                     bad('C07', 'unserialisable-victim-damages-archive', 'after f(%d) the archive lost the entries %r (it held %d, holds %d)' % (x, gone[:5], len(snap), len(now)))
                     break
         return dict(cfg=cfg, viol=viol, err=None, n=1)
-    except Exception:
+    except Exception as e:
+        tb = traceback.extract_tb(e.__traceback__)
+        if tb and os.sep + 'klepto' + os.sep in tb[-1].filename or any(os.sep + 'klepto' + os.sep in fr.filename for fr in tb[-4:]):
+            # the exception came out of the library (a management operation, a constructor): every property of the scenario is off
+            bad('*', 'operation-raised', '%s: %s (in %s)' % (type(e).__name__, str(e)[:80], tb[-1].name), exc=type(e).__name__)
+            return dict(cfg=cfg, viol=viol, err=None, n=1)
         return dict(cfg=cfg, viol=viol, err=traceback.format_exc()[-1200:], n=0)
     finally:
         os.chdir(cwd); rm_rf(tmp)
@@ -302,7 +314,7 @@ def explore(prop, tier, offset=0):
         if o['err']: errors.append(o['err']); continue
         tags[o['cfg']['scen']] += 1; tags['algo=' + o['cfg']['algo']] += 1
         for v in o['viol']:
-            if v['prop'] == prop: viols.append(dict(v, i=0, cfg=o['cfg'], ops=[]))
+            if v['prop'] in (prop, '*'): viols.append(dict(v, prop=prop, i=0, cfg=o['cfg'], ops=[]))
     n = sum(tags[s] for s in ('recur', 'twin', 'unser', 'reuse', 'names', 'chdir'))
     # the recursive traces against the model (flat history of completions)
     import run_wrapper as rw
@@ -328,7 +340,7 @@ def replay(prop, obj):
         return dict(violations=[dict(prop=prop, sig=v['sig'], msg=v['msg'], i=v.get('i', 0)) for v in mv], divergence=divs[0]['detail'] if divs else None)
     o = run_case(obj['cfg'])
     if o['err']: raise NoVerdict(o['err'])
-    return dict(violations=[dict(prop=prop, sig=v['sig'], msg=v['msg'], i=0) for v in o['viol'] if v['prop'] == prop], divergence=None)
+    return dict(violations=[dict(prop=prop, sig=v['sig'], msg=v['msg'], i=0) for v in o['viol'] if v['prop'] in (prop, '*')], divergence=None)
 
 
 def shrink_and_save(prop, v):
